@@ -592,6 +592,10 @@ def norm(e):
         return ("agg", e[1], e[2], tuple(norm(x) for x in e[3]), e[4])
     if k == "closure":
         return ("closure", e[1], tuple(norm(x) for x in e[2]))
+    if k == "variant":
+        return ("variant", norm(e[1]), e[2])
+    if k == "icall":
+        return ("icall", norm(e[1]), tuple(norm(x) for x in e[2]))
     return e
 
 
@@ -754,44 +758,59 @@ class TooManyStates(Exception):
 
 
 class PathState:
-    """Immutable abstract state: a valuation of atoms (frozenset of (atom, bool)) plus a user
-    component (hashable)."""
-    __slots__ = ("lits", "user")
+    """Immutable abstract state: a valuation of atoms (`lits`: frozenset of (atom, bool), facts
+    still valid at this point), the history of branch decisions (`hist`: like lits but never
+    invalidated by later writes; a newer decision on the same atom replaces the older one) and a
+    user component (hashable)."""
+    __slots__ = ("lits", "user", "hist")
 
-    def __init__(self, lits=frozenset(), user=None):
+    def __init__(self, lits=frozenset(), user=None, hist=frozenset()):
         self.lits = lits
         self.user = user
+        self.hist = hist
 
     def __hash__(self):
-        return hash((self.lits, self.user))
+        return hash((self.lits, self.user, self.hist))
 
     def __eq__(self, o):
-        return self.lits == o.lits and self.user == o.user
+        return self.lits == o.lits and self.user == o.user and self.hist == o.hist
 
-    def value(self, atom):
-        for a, v in self.lits:
+    def value(self, atom, hist=False):
+        for a, v in (self.hist if hist else self.lits):
             if a == atom:
                 return v
         return None
 
     def with_lit(self, atom, val):
         cur = self.value(atom)
-        if cur is not None:
-            if cur != val:
-                return None  # infeasible
+        if cur is not None and cur != val:
+            return None  # infeasible
+        nl = self.lits if cur is not None else (self.lits | {(atom, val)})
+        h = self.value(atom, True)
+        if h is None:
+            nh = self.hist | {(atom, val)}
+        elif h != val:
+            nh = frozenset(x for x in self.hist if x[0] != atom) | {(atom, val)}
+        else:
+            nh = self.hist
+        if nl is self.lits and nh is self.hist:
             return self
-        return PathState(self.lits | {(atom, val)}, self.user)
+        return PathState(nl, self.user, nh)
 
     def kill(self, pred):
         n = frozenset((a, v) for a, v in self.lits if not pred(a))
         if len(n) == len(self.lits):
             return self
-        return PathState(n, self.user)
+        return PathState(n, self.user, self.hist)
 
     def with_user(self, u):
         if u == self.user:
             return self
-        return PathState(self.lits, u)
+        return PathState(self.lits, u, self.hist)
+
+    def as_hist(self):
+        """View in which the branch history plays the role of the valid facts."""
+        return PathState(self.hist, self.user, self.hist)
 
 
 def place_target(body, pl):
